@@ -1,13 +1,13 @@
 """
 C17 -- a debug dump replays to the same result.
 
-Decided: (R1) the tuple pickled by the dump writer and the tuple unpacked by the dump reader agree
-position by position on the state component they carry; (R2) the value codecs (Counter <-> repeat,
-phase list <-> fresh keys) are multiset / order preserving (round-trip folding of the two lifted
-expressions); (R3) every Sample attribute that a stage, a writer or genotype() reads is in the
-dump or derived from the gene; (R4) archive member names written match what the readers test
-for, the dump is written only for alignment input under debug, parameters are re-applied.
-Not decided: equality of the replayed genotyping result (run-time).
+Decided: (R3) every Sample attribute that a stage, a writer or genotype() reads is in the dump or derived from the gene -- what the
+archive holds is read off the payload the dump writer, folded whole on marker-valued state, hands to pickle; (R4) the constructor folded
+whole: the dump is written once, on the loader's tables, for alignment input under debug only; (R5) original run vs replay through
+genotype(), neutral-depth table through pickle and the normalisation routine; (R6) what runs between loader and dump writer leaves the
+dumped state unchanged; (R7) writer -> reader -> coverage construction round trip; (R8) the archive route end to end on a file-system
+model. The former syntactic rules R1 (positional agreement of the two tuples), R2 (codec pairs) and the member-template half of R4 are
+retired: every armed edit of them is caught by R7 / R8.  Not decided: equality of the replayed genotyping result (run-time).
 """
 
 import ast
@@ -20,11 +20,8 @@ from sa.loader import AnalysisError, call_name, calls_in, kwarg, walk_local
 
 PROPERTY = "C17"
 EXPLANATION = (
-    "Writer/reader agreement tables: positional comparison of the pickled tuple in Sample._dump_alignments with "
-    "the unpacked tuple in Sample._load_dump by root state component; the two value codecs are lifted and folded "
-    "as a round trip on sample tables (multiset equality); completeness = set comparison between attributes of "
-    "the sample read outside sam.py (or by _make_coverage) and the dumped components plus an explicit exemption "
-    "table; member-name templates of writer and reader folded on sample names. Whole folds: Sample.__init__ (the dump writer runs "
+    "Completeness = set comparison between attributes of the sample read outside sam.py (or by _make_coverage) and the state the archive holds "
+    "(read off the payload the dump writer, folded whole on marker-valued state, hands to pickle) plus an explicit exemption table. Whole folds: Sample.__init__ (the dump writer runs "
     "once, on the loader's tables, for alignment input under debug only); genotype() original run vs replay (alias presets, re-applied and "
     "default parameters); what runs between loader and dump writer leaves the dumped state unchanged; writer -> reader -> coverage "
     "construction round trip; the archive route on a file-system model (main --debug on an argparse model, archive members of three genes "
@@ -48,80 +45,56 @@ EXEMPT = {
 }
 
 
-def root(expr):
-    """Root state component of a tuple element: self.X -> X ; name -> name ; comprehension / call -> root of
-    the innermost iterated / wrapped object."""
-    if isinstance(expr, ast.Attribute) and isinstance(expr.value, ast.Name) and expr.value.id == "self":
-        return expr.attr
-    if isinstance(expr, ast.Name):
-        return expr.id
-    if isinstance(expr, (ast.DictComp, ast.ListComp, ast.SetComp, ast.GeneratorExp)):
-        return root(expr.generators[0].iter)
-    if isinstance(expr, ast.Call):
-        if isinstance(expr.func, ast.Attribute) and expr.func.attr in ("items", "values", "keys", "copy"):
-            return root(expr.func.value)
-        if expr.args:
-            return root(expr.args[0])
-    if isinstance(expr, ast.Starred):
-        return root(expr.value)
-    return ast.unparse(expr)
+def dumped_payload(repo, overrides=None):
+    """The dump writer folded whole on a sample whose every data attribute (and both table arguments) carries a marker of its own:
+    -> (writer function, payload handed to pickle.dump, {attribute / argument name: marker}). Which state the archive holds is read
+    off the payload, not off the shape of the writer's source."""
+    from sa.fold import Lifted, lift_module_helpers
+
+    wf = repo.func("sam::Sample._dump_alignments")
+    init = repo.func("sam::Sample.__init__")
+    attrs = sorted({t.attr for n in walk_local(init) if isinstance(n, (ast.Assign, ast.AnnAssign))
+                    for t in (n.targets if isinstance(n, ast.Assign) else [n.target])
+                    if isinstance(t, ast.Attribute) and isinstance(t.value, ast.Name) and t.value.id == "self"} | {"coverage", "name", "profile"})
+    mark = {a: f"@{a}@" for a in attrs}
+    me = Obj(gene=Obj(name="G", genome="hg38"))
+    for a in attrs:
+        if a == "gene":
+            continue
+        if a == "name":
+            me.name = mark[a]
+        elif a == "profile":
+            me.profile = Obj(marker=mark[a], cn_region=None)
+        elif a == "phases":
+            me.phases = {"r1": {1: mark[a], 2: "_"}, "single": {1: "_"}}   # (the writer may keep the records without their fragment names)
+        else:
+            setattr(me, a, collections.defaultdict(int, {mark[a]: 1}))
+    for a, v_ in (overrides or {}).items():
+        setattr(me, a, v_)
+    params = [a_.arg for a_ in wf.args.args[2:]]
+    tables = {p_: collections.defaultdict(list, {f"@{p_}@": [(1, 2), (1, 2)]}) for p_ in params}
+    mark.update({p_: f"@{p_}@" for p_ in params})
+    got = []
+    io = {"open": lambda *a, **k: Obj(kind="text", name=a[0]), "gzip.open": lambda *a, **k: Obj(kind="gz", name=a[0]), "print": lambda *a, **k: None,
+          "pickle.dump": lambda o, fd, *a, **k: got.append(o), "Counter": collections.Counter, "collections.Counter": collections.Counter}
+    lift_module_helpers(repo.mod("sam").tree, io, None, {}, {})
+    Lifted(wf, funcs=io)(me, "dbg.G", *[tables[p_] for p_ in params])
+    if len(got) != 1:
+        raise AnalysisError(f"the dump writer pickles {len(got)} objects (expected one)")
+    return wf, got[0], mark
 
 
-def writer_tuple(repo):
-    f = repo.func("sam::Sample._dump_alignments")
-    for c in calls_in(f):
-        if call_name(c) == "pickle.dump" and c.args and isinstance(c.args[0], ast.Tuple):
-            return f, c, c.args[0].elts
-    raise AnalysisError("pickle.dump((...), fd) not found in Sample._dump_alignments")
+def dumped_names(repo):
+    """Names of the sample attributes / table arguments whose content reaches the archive."""
+    wf, payload, mark = dumped_payload(repo)
+    text = repr(payload)
+    return wf, {a for a, m_ in mark.items() if m_ in text}
 
 
-def reader_tuple(repo):
-    f = repo.func("sam::Sample._load_dump")
-    for n in walk_local(f):
-        if isinstance(n, ast.Assign) and isinstance(n.targets[0], ast.Tuple) and isinstance(n.value, ast.Call) \
-                and call_name(n.value) == "pickle.load":
-            return f, n, n.targets[0].elts
-    raise AnalysisError("(...) = pickle.load(fd) not found in Sample._load_dump")
-
-
-def r1(repo, res):
-    wf, wc, w = writer_tuple(repo)
-    rf, rn, r = reader_tuple(repo)
-    res.analysed(wf, rf)
-    res.floor("C17.R1", "dump tuple components", len(w), 8)
-    res.ob("C17.R1", wf, wc.args[0], len(w) == len(r), expected=f"writer and reader tuples have the same length",
-           found=f"writer {len(w)}, reader {len(r)}", key="length")
-    # roles instead of local names: a table handed to the writer as its k-th table parameter must come back as the
-    # k-th element the reader returns; a local of the reader that is stored into self.X afterwards has role X
-    wparams = [a_.arg for a_ in wf.args.args[2:]]
-    rets = [n for n in walk_local(rf) if isinstance(n, ast.Return) and isinstance(n.value, ast.Tuple)]
-    ret_names = [ast.unparse(e) for e in rets[-1].value.elts] if rets else []
-
-    def wrole(x):
-        return f"table{wparams.index(x)}" if x in wparams else x
-
-    def rrole(x):
-        if x in ret_names:
-            return f"table{ret_names.index(x)}"
-        for n in walk_local(rf):
-            if isinstance(n, ast.Assign) and isinstance(n.targets[0], ast.Attribute) and isinstance(n.targets[0].value, ast.Name) \
-                    and n.targets[0].value.id == "self" and any(isinstance(y, ast.Name) and y.id == x for y in ast.walk(n.value)):
-                return n.targets[0].attr
-        return x
-
-    for i, (a, b) in enumerate(zip(w, r)):
-        ra, rb = wrole(root(a)), rrole(root(b))
-        res.ob("C17.R1", wf, a, ra == rb,
-               expected=f"position {i}: reader binds the component the writer stored",
-               found=f"writer stores `{ra}` ({ast.unparse(a)[:50]}), reader binds `{rb}`",
-               clause="the same sample name, profile, depth tables, phases, fusion and indel support are restored",
-               key=f"position:{i}:{ra}")
-    rets = [n for n in walk_local(rf) if isinstance(n, ast.Return) and isinstance(n.value, ast.Tuple)]
-    if rets:
-        got = [rrole(ast.unparse(e)) for e in rets[-1].value.elts]
-        want = [wrole(root(e)) for e in w[3:5]]
-        res.ob("C17.R1", rf, rets[-1], got == want, expected=f"reader returns the restored tables in the order the writer received them {want}",
-               found=str(got), key="reader-return-order")
+def r1_retired():
+    """R1 (positional agreement of the pickled and the unpickled tuple, read off the two tuple expressions) and R2 (codec pairs) were syntactic;
+    every armed edit of them is caught by R7 (writer -> reader -> coverage construction folded whole) and R8 (archive route), which decide the
+    same facts whatever shape the writer and the reader have."""
 
 
 def _find_assign(f, name):
@@ -131,8 +104,12 @@ def _find_assign(f, name):
 
 
 def r3(repo, res):
-    wf, wc, w = writer_tuple(repo)
-    dumped = {root(e) for e in w}
+    try:
+        wf, dumped = dumped_names(repo)
+    except (Unfoldable, Raised) as e:
+        res.err("C17.R3", f"dump writer outside the folding language: {e}")
+        return
+    wc = wf
     # attributes of the sample read outside sam.py
     read_outside = {}
     # locals bound to a Sample(...) construction hold the sample, whatever they are called
@@ -179,7 +156,6 @@ def r3(repo, res):
 def r4(repo, res):
     from checks._sampleinit import fold_sample_init
 
-    wf, wc, w = writer_tuple(repo)
     init = repo.func("sam::Sample.__init__")
     res.analysed(init)
     # the constructor folded whole: the dump writer runs exactly once for alignment input under debug, on the loader's tables
@@ -204,55 +180,7 @@ def r4(repo, res):
                expected=f"input kind {kind!r}{', long reads' if long_reads else ''}, debug {debug!r}: the dump writer runs {'once, on the tables the loader returned' if want else 'not at all'}",
                found=f"{k} {v or ''}; calls {[c_[0] for c_ in calls]}", clause="the debug archive written for a run",
                key=f"dump-guard:{kind}:{bool(debug)}" + (":long" if long_reads else ""))
-    if pref is None:
-        return
-    pref = pref.replace("/scratch/d/S", "/tmp/d/S")
-    prefix_param = wf.args.args[1].arg
-    names = []
-    for call in calls_in(wf):
-        if call_name(call) in ("open", "gzip.open") and call.args:
-            try:
-                names.append(Evaluator({prefix_param: pref}).ev(call.args[0]))
-            except (Unfoldable, Raised) as e:
-                res.err("C17.R4", f"member name expression is outside the folding language: {e}")
-    res.floor("C17.R4", "files written by the dump writer", len(names), 2)
-    members = ["./" + n.split("/")[-1] for n in names]
-    # reader tests
-    rf = repo.func("sam::Sample._load_dump")
-    dg = repo.func("sam::detect_genome")
-    res.analysed(dg)
-
-    def member_tests(f):
-        out = []
-        for n in ast.walk(f):
-            if isinstance(n, ast.ListComp) and isinstance(n.generators[0].iter, ast.Call) \
-                    and call_name(n.generators[0].iter).endswith("getnames") and n.generators[0].ifs:
-                out.append((n.generators[0].target.id, n.generators[0].ifs[0]))
-        return out
-
-    for f, label, gene_specific in ((rf, "dump member", True), (dg, "genome marker", False)):
-        tests = member_tests(f)
-        if not tests:
-            res.err("C17.R4", f"{label} test not found in {f.name}")
-            continue
-        var, test = tests[0]
-        hits = [m for m in members if Evaluator({var: m, "self.gene.name": "G"}).ev(test)]
-        other = [m for m in members if Evaluator({var: m, "self.gene.name": "H"}).ev(test)] if gene_specific else []
-        ok = len(hits) == 1 and not other
-        if gene_specific:
-            # an archive of several genes, one name being a prefix of another (CYP3A4 / CYP3A43)
-            dump_members = [m for m in members if m.endswith(".dump")]
-            multi = dump_members + [m.replace(".G.", ".G3.") for m in dump_members] + [m.replace(".G.", ".XG.") for m in dump_members]
-            for gname in ("G", "G3", "XG"):
-                hs = [m for m in multi if Evaluator({var: m, "self.gene.name": gname}).ev(test)]
-                if hs != [m.replace(".G.", f".{gname}.") for m in dump_members]:
-                    ok = False
-                    other = other + [f"gene {gname} matches {hs}"]
-        res.ob("C17.R4", f, test, ok,
-               expected=f"exactly one written member matches the reader's {label} test (and none for another gene)",
-               found=f"written {members}; matches {hits}; matches for other gene {other}",
-               clause="for every gene contained in the archive", key=f"member:{label}")
-    # (the archive suffix written by main() and tested by the two readers is decided end to end by R8)
+    # (member names written by the dump writer and tested by the two readers are decided end to end by R8, on the files the folded writer creates)
 
 
 def r5(repo, res):
@@ -294,15 +222,18 @@ def r5(repo, res):
     # neutral-depth table: writer -> pickle -> consumer (the normalisation routine folded whole on the restored table)
     import checks.c07 as c07
 
-    wf, wc, w = writer_tuple(repo)
     nf = repo.func("coverage::Coverage._normalize_coverage")
-    idx = [i for i, e in enumerate(w) if root(e) == "_dump_cn"]
-    if not idx:
-        res.err("C17.R5", "neutral-depth component not found in the dump tuple")
-        return
+    wf = repo.func("sam::Sample._dump_alignments")
     try:
         table = collections.defaultdict(int, {100: 4, 101: 5, 103: 2, 105: 3})  # position 102 and 104 have no read
-        stored = Evaluator({"self._dump_cn": table, "self": Obj(_dump_cn=table)}, funcs={"Counter": collections.Counter}).ev(w[idx[0]])
+        # the component of the pickled payload that carries the neutral-depth table: found by a marker run, then taken from a run on this table
+        wf, marked, mark = dumped_payload(repo)
+        idx = [i for i, e in enumerate(marked) if mark["_dump_cn"] in repr(e)] if isinstance(marked, (tuple, list)) else []
+        if len(idx) != 1:
+            res.err("C17.R5", "the neutral-depth table is not one component of the pickled payload")
+            return
+        _, payload, _ = dumped_payload(repo, overrides={"_dump_cn": table})
+        stored = payload[idx[0]]
         import pickle
 
         restored = pickle.loads(pickle.dumps(stored))
@@ -316,7 +247,7 @@ def r5(repo, res):
     except Unfoldable as e:
         res.err("C17.R5", f"neutral table round trip outside folding language: {e}")
         return
-    res.ob("C17.R5", wf, w[idx[0]], ok,
+    res.ob("C17.R5", wf, wf, ok,
            expected="normalising against the restored neutral-depth table gives the same depths as against the original one (uncovered positions read as 0)",
            found=found, clause="the same ... gene structures ... as genotyping the original alignment file", key="neutral-table-roundtrip")
 
@@ -331,7 +262,11 @@ def r6(repo, res):
     from sa.fold import Lifted
 
     init = repo.func("sam::Sample.__init__")
-    wf, wc, w = writer_tuple(repo)
+    try:
+        wf, dumped = dumped_names(repo)
+    except (Unfoldable, Raised) as e:
+        res.err("C17.R6", f"dump writer outside the folding language: {e}")
+        return
     res.analysed(init)
     c = cfg_of(init)
     dc = find_calls(init, "_dump_alignments")
@@ -353,7 +288,7 @@ def r6(repo, res):
         if xn != dn and c.path_exists(xn, dn):
             between.append(x)
     res.count("C17.R6:routines between loader and dump writer", len(between))
-    dumped_attrs = sorted({root(e) for e in w} - set(a_.arg for a_ in wf.args.args))
+    dumped_attrs = sorted(dumped - set(a_.arg for a_ in wf.args.args))
     cov_init = repo.func("coverage::Coverage.__init__")
 
     def sample_state():
@@ -718,7 +653,6 @@ def run(repo, res):
     r5(repo, res)
     r6(repo, res)
     r7(repo, res)
-    r1(repo, res)
     r3(repo, res)
     r4(repo, res)
 
@@ -744,13 +678,13 @@ MUTANTS = [
          new="""            if self.kind == "sam" and debug:
                 self._dump_alignments(f"{debug}.{gene.name}", norm, muts)
             self._make_coverage(norm, muts)"""),
-    dict(name="R1 writer swaps fusion and indel tables", module="sam", expect="C17.R1",
+    dict(name="R1 writer swaps fusion and indel tables", module="sam", expect=["C17.R7", "C17.R8"],
          old="                    self._fusion_counter,\n                    self._indel_sites,  # TODO: remove",
          new="                    self._indel_sites,\n                    self._fusion_counter,"),
-    dict(name="R1 reader swaps norm and muts", module="sam", expect="C17.R1",
+    dict(name="R1 reader swaps norm and muts", module="sam", expect=["C17.R7", "C17.R8"],
          old="            self._dump_cn,\n            norm,\n            muts,\n            phases,",
          new="            self._dump_cn,\n            muts,\n            norm,\n            phases,"),
-    dict(name="R1 writer drops fusion counters", module="sam", expect=["C17.R1", "C17.R3"],
+    dict(name="R1 writer drops fusion counters", module="sam", expect=["C17.R7", "C17.R3"],
          old="                    self._fusion_counter,\n                    self._indel_sites,  # TODO: remove",
          new="                    self._indel_sites,"),
     dict(name="R1+R3 fusion counters dropped on both sides", module="sam", expect="C17.R3",
@@ -764,17 +698,17 @@ MUTANTS = [
          old='self.phases = {f"r{i}": v for i, v in enumerate(phases)}', new='self.phases = {"r": v for i, v in enumerate(phases)}'),
     dict(name="R3 stage reads an undumped attribute", module="cn", expect="C17.R3",
          old="        if coverage.sam._fusion_counter:", new="        if coverage.sam._fusion_counter and coverage.sam._dump_reads:"),
-    dict(name="R4 reader looks for another suffix", module="sam", expect="C17.R4",
+    dict(name="R4 reader looks for another suffix", module="sam", expect=["C17.R8"],
          old='if i.endswith(f".{self.gene.name}.dump")]', new='if i.endswith(f".{self.gene.name}.dmp")]'),
-    dict(name="R4 writer drops gene from member name", module="sam", expect="C17.R4",
+    dict(name="R4 writer drops gene from member name", module="sam", expect=["C17.R8"],
          old='self._dump_alignments(f"{debug}.{gene.name}", norm, muts)', new='self._dump_alignments(f"{debug}", norm, muts)'),
-    dict(name="R4 reader matches any gene's dump", module="sam", expect="C17.R4",
+    dict(name="R4 reader matches any gene's dump", module="sam", expect=["C17.R8"],
          old='if i.endswith(f".{self.gene.name}.dump")]', new='if i.endswith(".dump")]'),
     dict(name="R4 params not re-applied for dumps", module="genotype", expect="C17.R5",
          old='    if kind == "dump":\n        profile.update(params)', new='    if kind == "dump":\n        pass'),
     dict(name="R4 dump also written when replaying a dump", module="sam", expect="C17.R4",
          old='            if self.kind == "sam" and debug:', new='            if debug:'),
-    dict(name="R4 member matched by substring (seeded C17_2 shape)", module="sam", expect="C17.R4",
+    dict(name="R4 member matched by substring (seeded C17_2 shape)", module="sam", expect=["C17.R8"],
          old='if i.endswith(f".{self.gene.name}.dump")]', new='if i.endswith(".dump") and f".{self.gene.name}" in i]'),
     dict(name="R5 alias handling skipped for archives (seeded C17_1 shape)", module="genotype", expect=["C17.R5"],
          old='    if profile_name in ["exome", "wxs", "wes"]:', new='    if kind != "dump" and profile_name in ["exome", "wxs", "wes"]:'),
